@@ -85,6 +85,7 @@ func mkCase(fam string, mode int, src string, run bool, note string) kase {
 }
 
 type verdict struct {
+	Reduced string // hang verdicts: the small input that was actually judged (== "" if the original)
 	Outcome string // coarse outcome class (vacuity statistics)
 	Clause  string // "" = conforms
 	Key     string
@@ -120,11 +121,12 @@ func check(src string, mode int, run bool) verdict {
 		v.Detail = res.PanicMsg
 		return v
 	case "fuel":
-		key, detail, r3 := decideHang(src, mode)
+		key, detail, red, r3 := decideHang(src, mode)
 		switch {
 		case key != "":
 			v.Clause = "terminates-within-bound"
 			v.Key, v.Detail = key, detail
+			v.Reduced = red
 			v.Outcome = "fuel"
 			return v
 		case r3 == nil:
@@ -370,7 +372,7 @@ func parseOnly(src string, mode int, fuel int64) (res runner.Result) {
 // its own full bound, that is the violation and the function owning the non-terminating loop is
 // named: the stack is sampled at consecutive ticks and the innermost frame common to all samples
 // is the function that never returns.
-func decideHang(src string, mode int) (key, detail string, done *runner.Result) {
+func decideHang(src string, mode int) (key, detail, reduced string, done *runner.Result) {
 	// The reduction must stay on the same loop: a candidate counts only if it exhausts the probe
 	// budget AND the innermost construct-specific parser function on its stack at that moment
 	// (signature) is the one of the original input. Memoised: inputs of one shard share most
@@ -402,14 +404,14 @@ func decideHang(src string, mode int) (key, detail string, done *runner.Result) 
 	hk := string(rune('0'+mode)) + red
 	if k, ok := hangCache[hk]; ok {
 		if k[0] != "" {
-			return k[0], k[1], nil
+			return k[0], k[1], red, nil
 		}
 	} else if len(red) <= 2000 {
 		b := cappedBound(len(red))
 		if parseOnly(red, mode, b).Kind == "fuel" && b == bound(len(red)) {
 			key, detail = attribute(red, mode, b)
 			hangCache[hk] = [2]string{key, detail}
-			return key, detail, nil
+			return key, detail, red, nil
 		}
 		hangCache[hk] = [2]string{"", ""}
 	}
@@ -417,13 +419,13 @@ func decideHang(src string, mode int) (key, detail string, done *runner.Result) 
 	b := cappedBound(len(src))
 	r := parseOnly(src, mode, b)
 	if r.Kind != "fuel" {
-		return "", "", &r
+		return "", "", "", &r
 	}
 	if b == bound(len(src)) {
 		key, detail = attribute(src, mode, b)
-		return key, detail, nil
+		return key, detail, "", nil
 	}
-	return "", fmt.Sprintf("%d-byte input needs more than %d ticks (bound %d not affordable)", len(src), b, bound(len(src))), nil
+	return "", fmt.Sprintf("%d-byte input needs more than %d ticks (bound %d not affordable)", len(src), b, bound(len(src))), "", nil
 }
 
 func attribute(red string, mode int, b int64) (key, detail string) {
